@@ -70,8 +70,10 @@ Qed.
 
 Lemma frag0_rejection_free : rejection_free fb = true.
 Proof.
-  destruct frag0_parts as (_ & Hc & _). unfold no_rejecting_constraints in Hc. unfold rejection_free.
-  rewrite forallb_forall in *. intros k Hk. specialize (Hc k Hk). destruct k; try discriminate; reflexivity.
+  destruct frag0_parts as (H1 & Hc & _). unfold no_rejecting_constraints in Hc. unfold rejection_free.
+  apply andb_true_intro. split.
+  - rewrite forallb_forall in *. intros k Hk. specialize (Hc k Hk). destruct k; try discriminate; reflexivity.
+  - unfold single_plain_crossing in H1. destruct (fl_crossings fb) as [|c [|? ?]]; try discriminate. reflexivity.
 Qed.
 
 Local Notation HF1 := frag0_frag1.
